@@ -195,7 +195,8 @@ def jobs(tier):
     else:
         plan = [('find_subtypes', dict(nmax=3, depth=1, with_d=False, fixed_n=3, builtins=False)),
                 ('find_subtypes', dict(nmax=2, depth=1, with_d=False)),
-                ('find_irrelevant_type', dict(nmax=2, depth=1, with_d=True, fixed_n=2, vary_bounds=False, builtins=False)),
+                ('find_irrelevant_type', dict(nmax=2, depth=1, with_d=True, fixed_n=2, vary_bounds=False, builtins=False,
+                                              fix=dict(hvar=0))),
                 ('find_subtypes', dict(nmax=2, depth=2, with_d=False, fixed_n=2, vary_bounds=False, builtins=False,
                                        fix=dict(hvar=0, ext=[1])))]
     plan.append(('find_subtypes', dict(nmax=2, depth=2, with_d=False, fixed_n=2, vary_bounds=False, builtins=False,
